@@ -104,7 +104,9 @@ static hwloc_obj_t resolve(const char *ref)
   return NULL;
 }
 
-static void print_name(const char *s) { printf(" name=%s", s ? s : "-"); }
+/* names in scripts and transcripts: "-" is NULL, the two characters "" are the empty string */
+static void print_name(const char *s) { printf(" name=%s", !s ? "-" : !*s ? "\"\"" : s); }
+static const char *arg_name(const char *t) { return !strcmp(t, "-") ? NULL : !strcmp(t, "\"\"") ? "" : t; }
 
 static void dump_internal(void)
 {
@@ -227,7 +229,7 @@ int main(void)
     } else if (!strcmp(tok[0], "create") && ntok == 5) {
       unsigned h = atoi(tok[1]) % NH;
       if (handles[h]) { hwloc_distances_add_commit(topo, handles[h], ~0UL); handles[h] = NULL; }
-      handles[h] = hwloc_distances_add_create(topo, strcmp(tok[2], "-") ? tok[2] : NULL,
+      handles[h] = hwloc_distances_add_create(topo, arg_name(tok[2]),
                                               strtoul(tok[3], NULL, 0), strtoul(tok[4], NULL, 0));
       prc(handles[h] ? 0 : -1);
     } else if (!strcmp(tok[0], "values") && ntok >= 4) {
@@ -267,7 +269,7 @@ int main(void)
       if (!strcmp(tok[1], "all")) rc = hwloc_distances_get(topo, &nr, arr, kind, flags);
       else if (!strcmp(tok[1], "type")) rc = hwloc_distances_get_by_type(topo, (hwloc_obj_type_t)strtoul(tok[2], NULL, 0), &nr, arr, kind, flags);
       else if (!strcmp(tok[1], "depth")) rc = hwloc_distances_get_by_depth(topo, atoi(tok[2]), &nr, arr, kind, flags);
-      else rc = hwloc_distances_get_by_name(topo, strcmp(tok[2], "-") ? tok[2] : NULL, &nr, arr, flags);
+      else rc = hwloc_distances_get_by_name(topo, arg_name(tok[2]), &nr, arr, flags);
       if (rc < 0) { prc(rc); }
       else {
         printf("rc=0 errno=- nr=%u\n", nr);
